@@ -16,7 +16,7 @@ use simcore::rng::Rng;
 
 use crate::engine::{
     self, begin_run, current_actor, current_step, drive, end_run, now_ms, op_boundary,
-    register_deadline, AState, Decision, DriveStats, Knobs, PollEnd, Resume, RunEnd, Sim, SimInfo,
+    register_deadline, AState, Decision, DriveStats, InjectedPanic, Knobs, PollEnd, Resume, RunEnd, Sim, SimInfo,
     Violation, World, CONTROLLER,
 };
 use crate::trace;
@@ -30,7 +30,12 @@ pub enum Ctor {
     New { max_size: usize },
     FromConfig { max_size: usize, timeout: Option<u64>, runtime: bool },
     /// `Pool::from(vec![..n objects..])`
-    FromVec { n: usize },
+    /// `spare`: the vector handed to `Pool::from` has room for that many more elements
+    FromVec {
+        n: usize,
+        #[serde(default)]
+        spare: usize,
+    },
 }
 
 #[derive(Clone, Copy, Debug, Serialize, Deserialize, PartialEq, Eq)]
@@ -44,8 +49,15 @@ pub enum UOp {
     Remove { cancellable: bool },
     TryRemove,
     TimeoutRemove { t: Option<u64>, cancellable: bool },
-    Return { slot: u8 },
+    /// `unwinding`: the holder panics; the object is dropped while the stack unwinds
+    Return {
+        slot: u8,
+        #[serde(default)]
+        unwinding: bool,
+    },
     Take { slot: u8 },
+    /// create, use and close an unrelated second pool
+    Sibling { kind: u8 },
     Status,
     Close,
     Nop,
@@ -64,7 +76,7 @@ impl UScenario {
     pub fn max_size(&self) -> usize {
         match self.ctor {
             Ctor::New { max_size } | Ctor::FromConfig { max_size, .. } => max_size,
-            Ctor::FromVec { n } => n,
+            Ctor::FromVec { n, .. } => n,
         }
     }
     pub fn cfg_timeout(&self) -> Option<u64> {
@@ -91,6 +103,18 @@ impl Drop for UObj {
     fn drop(&mut self) {
         let id = self.id;
         try_with_u(|w| w.on_destroy(id));
+    }
+}
+
+/// Item of a second, unrelated pool that some runs create, use and close next to the pool under
+/// test: two pools of one process share nothing, so nothing that happens to the sibling may show
+/// in the pool under test. Its destructor is a schedule point (it runs inside the sibling's
+/// `close()`).
+pub struct SibObj;
+
+impl Drop for SibObj {
+    fn drop(&mut self) {
+        engine::point("harness.dtor");
     }
 }
 
@@ -511,7 +535,33 @@ pub fn run_uop(actor: usize, op: UOp, pool: &UPool) {
         }
         UOp::Add { reuse, .. } => do_add(actor, op, pool, reuse, true),
         UOp::TryAdd { reuse } => do_add(actor, op, pool, reuse, false),
-        UOp::Return { slot } => {
+        UOp::Sibling { kind } => {
+            let opi = with_u(|w| {
+                w.fault("sibling_pool_churn");
+                w.op_invoke(actor, op)
+            });
+            let r = catch_unwind(AssertUnwindSafe(|| {
+                if kind % 2 == 0 {
+                    let p: Pool<SibObj> = Pool::from(vec![SibObj, SibObj]);
+                    let _ = p.close();
+                } else {
+                    let p: Pool<SibObj> = Pool::new(2);
+                    let _ = p.try_add(SibObj);
+                    let _ = p.try_add(SibObj);
+                    let o = p.try_get();
+                    drop(o);
+                    let _ = p.close();
+                }
+            }));
+            with_u(|w| match r {
+                Ok(()) => w.op_return(opi, URes::Unit),
+                Err(p) => {
+                    let m = panic_msg(p);
+                    w.op_return(opi, URes::Panicked(m))
+                }
+            });
+        }
+        UOp::Return { slot, unwinding } => {
             let Some(obj) = take_held(actor, slot) else { return };
             let id = obj.id;
             let opi = with_u(|w| {
@@ -520,7 +570,21 @@ pub fn run_uop(actor: usize, op: UOp, pool: &UPool) {
                 w.objs[id as usize].loc = Loc::Returning(actor);
                 opi
             });
-            let r = catch_unwind(AssertUnwindSafe(move || drop(obj)));
+            let r = if unwinding {
+                // the holder panics: its object goes back to the pool from inside the unwinding
+                with_u(|w| w.fault("object_dropped_by_unwinding"));
+                #[allow(unreachable_code)]
+                let r = catch_unwind(AssertUnwindSafe(move || {
+                    let _owned = obj;
+                    std::panic::panic_any(InjectedPanic(id));
+                }));
+                match r {
+                    Err(p) if p.downcast_ref::<InjectedPanic>().is_some() => Ok(()),
+                    other => other,
+                }
+            } else {
+                catch_unwind(AssertUnwindSafe(move || drop(obj)))
+            };
             with_u(|w| {
                 if w.objs[id as usize].destroyed.is_none() && matches!(w.objs[id as usize].loc, Loc::Returning(a) if a == actor) {
                     w.objs[id as usize].loc = Loc::Pool;
@@ -1020,14 +1084,13 @@ fn build(sc: &UScenario, w: &mut UWorld) -> UPool {
             timeout: ms(timeout),
             runtime: if runtime { Some(Runtime::Tokio1) } else { None },
         }),
-        Ctor::FromVec { n } => {
-            let v: Vec<UObj> = (0..n)
-                .map(|_| {
-                    let o = w.new_obj(CONTROLLER);
-                    w.objs[o.id as usize].loc = Loc::Pool;
-                    o
-                })
-                .collect();
+        Ctor::FromVec { n, spare } => {
+            let mut v: Vec<UObj> = Vec::with_capacity(n + spare);
+            for _ in 0..n {
+                let o = w.new_obj(CONTROLLER);
+                w.objs[o.id as usize].loc = Loc::Pool;
+                v.push(o);
+            }
             Pool::from(v)
         }
     }
@@ -1329,9 +1392,11 @@ pub fn gen_unmanaged(rng: &mut Rng, profile: &str, thorough: bool) -> UScenario 
             };
             Ctor::FromConfig { max_size, timeout, runtime }
         }
-        _ => Ctor::FromVec { n: max_size },
+        _ => Ctor::FromVec { n: max_size, spare: *rng.pick(&[0usize, 0, 1, 5]) },
     };
     let n_actors = rng.range(1, if thorough { 6 } else { 4 });
+    // a share of the runs has a second, unrelated pool come and go next to the one under test
+    let sibling = rng.below(100) < 12;
     // C12: close() anywhere, sometimes from two threads at once; C10: a timed waiter may meet close()
     let mut close_budget = match profile {
         "C12" => *rng.pick(&[0u32, 1, 1, 1, 2]),
@@ -1374,7 +1439,7 @@ pub fn gen_unmanaged(rng: &mut Rng, profile: &str, thorough: bool) -> UScenario 
                 5 => UOp::Remove { cancellable: canc },
                 6 => UOp::TryRemove,
                 7 => UOp::TimeoutRemove { t: tmo(rng), cancellable: canc },
-                8 => UOp::Return { slot: rng.below(4) as u8 },
+                8 => UOp::Return { slot: rng.below(4) as u8, unwinding: rng.below(100) < 7 },
                 9 => UOp::Take { slot: rng.below(4) as u8 },
                 10 => UOp::Status,
                 _ => {
@@ -1383,11 +1448,20 @@ pub fn gen_unmanaged(rng: &mut Rng, profile: &str, thorough: bool) -> UScenario 
                 }
             };
             ops.push(op);
+            if sibling && rng.below(100) < 20 {
+                ops.push(UOp::Sibling { kind: rng.below(2) as u8 });
+            }
         }
         actors.push(ops);
     }
-    let mut knobs = crate::mgen::gen_knobs(rng, false, false);
+    // with a panic in the history no thread may be parked inside a critical section (a second
+    // thread unwinding into that lock would have to wait in the middle of its unwinding)
+    let unwinds = actors.iter().any(|a: &Vec<UOp>| a.iter().any(|o| matches!(o, UOp::Return { unwinding: true, .. })));
+    let mut knobs = crate::mgen::gen_knobs(rng, unwinds, false);
     knobs.p_cancel = *rng.pick(&[0u32, 30, 100, 300]);
+    if sibling {
+        knobs.sites.push("harness.dtor".to_string());
+    }
     UScenario {
         profile: profile.to_string(),
         ctor,
@@ -1409,8 +1483,9 @@ fn opname(o: &UOp) -> String {
         UOp::Remove { .. } => "Remove".into(),
         UOp::TryRemove => "TryRemove".into(),
         UOp::TimeoutRemove { t, .. } => format!("TimeoutRemove({})", tn(t)),
-        UOp::Return { .. } => "Return".into(),
+        UOp::Return { unwinding, .. } => format!("Return{}", if *unwinding { "!unwinding" } else { "" }),
         UOp::Take { .. } => "Take".into(),
+        UOp::Sibling { kind } => format!("Sibling({})", kind % 2),
         UOp::Status => "Status".into(),
         UOp::Close => "Close".into(),
         UOp::Nop => "Nop".into(),
@@ -1478,7 +1553,12 @@ impl Harness for Unmanaged {
                     out.push(c);
                 }
             }
-            Ctor::FromVec { n } => {
+            Ctor::FromVec { n, spare } => {
+                if spare > 0 {
+                    let mut c = sc.clone();
+                    c.ctor = Ctor::FromVec { n, spare: 0 };
+                    out.push(c);
+                }
                 if n == 0 {
                     let mut c = sc.clone();
                     c.ctor = Ctor::New { max_size: 0 };
@@ -1493,7 +1573,7 @@ impl Harness for Unmanaged {
             c.ctor = match sc.ctor {
                 Ctor::New { .. } => Ctor::New { max_size: m - 1 },
                 Ctor::FromConfig { timeout, runtime, .. } => Ctor::FromConfig { max_size: m - 1, timeout, runtime },
-                Ctor::FromVec { .. } => Ctor::FromVec { n: m - 1 },
+                Ctor::FromVec { spare, .. } => Ctor::FromVec { n: m - 1, spare },
             };
             out.push(c);
         }
